@@ -82,13 +82,16 @@ Definition terr_ok (k : case) : bool :=
     (anc_b p && onode_eqb (node_at (k_before k) p) None && onode_eqb (assoc_path p (k_after k)) (Some NDir)))
     (changed_paths k).
 
-(* #static folders byte-identical (when the declared statics do not collide with the build's own outputs) *)
+(* #static folders byte-identical, pointwise (C10_statics_pointwise): a changed node inside a #static folder must begin the
+   path of something this build writes (jmc.txt, a function tag, an emitted file, pack.mcmeta, a #copy destination) - also
+   when the static IS a deleted folder (`#static "."`, `#static "../minecraft"`, `#static "../<override>"`) *)
 Definition static_ok (k : case) : bool :=
-  match k_out k with
-  | Success o => if static_safe (k_cfg k) (k_hdr k) o
-                 then forallb (fun p => negb (excepted (k_hdr k) p)) (changed_paths k) else true
-  | _ => forallb (fun p => negb (excepted (k_hdr k) p)) (changed_paths k)
-  end.
+  forallb (fun p => negb (excepted (k_hdr k) p) ||
+                    match gate (k_v k) (k_cfg k) (k_hdr k) (k_out k) with
+                    | Success o => existsb (fun w => is_prefix p w) (written_paths (k_cfg k) (k_hdr k) o)
+                    | _ => false
+                    end)
+          (changed_paths k).
 
 (* refusal / failed compile: nothing changes — also when the failure is the unparsable function-tag file, for the
    variants that read the tag files before the first mutation *)
